@@ -3,9 +3,11 @@ The residue operations used by the driver (`natOps n`) are the operations of `ZM
 instance of `Hom` that specialises the ring-generic theorems of C10 to what the driver runs.
 -/
 import Ymq.Lemmas.PolyKaratsuba
+import Ymq.Lemmas.PolySeries
 import Mathlib.Data.ZMod.Basic
 
 namespace Ymq.PolyMul
+open Ymq.PolySpec
 
 /-- the driver's residue operations are those of `ZMod n` -/
 theorem natOps_hom (n : Nat) (hn : 0 < n) : Hom (natOps n) (Nat.cast : ℕ → ZMod n) where
@@ -18,5 +20,51 @@ theorem natOps_hom (n : Nat) (hn : 0 < n) : Hom (natOps n) (Nat.cast : ℕ → Z
       ZMod.natCast_mod, ZMod.natCast_self]
     ring
   mul a b := by simp [natOps]
+
+theorem xgcdAux_inv (n : Nat) (x : ZMod n) : ∀ (f : Nat) (a b u v : Int),
+    (a : ZMod n) = u * x → (b : ZMod n) = v * x →
+    (((xgcdAux f a b u v).1 : Int) : ZMod n) = ((xgcdAux f a b u v).2 : Int) * x := by
+  intro f
+  induction f with
+  | zero => intro a b u v ha _; simpa [xgcdAux] using ha
+  | succ f ih =>
+    intro a b u v ha hb
+    unfold xgcdAux
+    split_ifs with h0
+    · simpa using ha
+    · apply ih
+      · exact hb
+      · rw [Int.emod_def]
+        push_cast
+        rw [ha, hb]; ring
+
+theorem invMod_sound (a n i : Nat) (hn : 0 < n) (h : invMod a n = some i) : (a : ZMod n) * (i : ZMod n) = 1 := by
+  unfold invMod at h
+  simp only at h
+  split_ifs at h with h1
+  simp only [Option.some.injEq] at h
+  have hinv := xgcdAux_inv n (a : ZMod n) (2 * n.log2 + 4) ((a % n : Nat) : Int) (n : Int) 1 0
+    (by push_cast; simp) (by simp)
+  rw [h1] at hinv
+  rw [← h]
+  have hnn : ((xgcdAux (2 * n.log2 + 4) ((a % n : Nat) : Int) (n : Int) 1 0).2 % (n : Int)).toNat =
+      (xgcdAux (2 * n.log2 + 4) ((a % n : Nat) : Int) (n : Int) 1 0).2 % (n : Int) :=
+    Int.toNat_of_nonneg (Int.emod_nonneg _ (by omega))
+  have : (((xgcdAux (2 * n.log2 + 4) ((a % n : Nat) : Int) (n : Int) 1 0).2 % (n : Int)).toNat : ZMod n) =
+      (((xgcdAux (2 * n.log2 + 4) ((a % n : Nat) : Int) (n : Int) 1 0).2 : Int) : ZMod n) := by
+    have := congrArg (fun z : Int => (z : ZMod n)) hnn
+    simp only [Int.cast_natCast] at this
+    rw [this]
+    simp
+  rw [this, mul_comm]
+  simpa using hinv.symm
+
+/-- the driver's operations, including `==` and `zn.inv`, are sound for `ZMod n` -/
+theorem natOps_homE (n : Nat) (hn : 0 < n) : HomE (natOps n) (Nat.cast : ℕ → ZMod n) where
+  toHom := natOps_hom n hn
+  eq_sound a b h := by
+    have : a = b := by simpa [natOps] using h
+    rw [this]
+  inv_sound a i h := invMod_sound a n i hn h
 
 end Ymq.PolyMul
